@@ -115,6 +115,14 @@ def confirm_one(ch):
     meta.update({"written_by": "independent sub-agent given only the property text and a scratch worktree", "round": rnd,
                  "source_patch": os.path.relpath(patch, VERIF), "source_patch_sha": sha, "confirmed_at_repo_head": head(), "what_i_ran": ran})
     meta.pop("check_results", None)
+    if old.get("source_patch_sha") == sha and old.get("check_results"):
+        # the same change re-confirmed at a later library HEAD (after a fix: commit elsewhere): the recorded verdicts stay, with the HEAD they
+        # were recorded at; `run` replaces them when the change is run again
+        for k in ("check_results", "checks_ran_against", "caught_by_target_check", "caught_with_concrete_input", "check_alarmed",
+                  "alarm_names_concrete_input"):
+            if k in old:
+                meta[k] = old[k]
+        meta["check_results_recorded_at_repo_head"] = old.get("check_results_recorded_at_repo_head", str(old.get("confirmed_at_repo_head", ""))[:7])
     if old.get("not_kept"):
         meta["not_kept"] = old["not_kept"]          # a change superseded by a later fix: stays recorded as not kept
     json.dump(meta, open(os.path.join(out, "meta.json"), "w"), indent=1)
@@ -149,7 +157,7 @@ def run_one(ch):
         sh(["git", "-C", TARGET, "clean", "-fdq", "aotools"])
     alarmed = any(r["exit"] != 0 for r in results.values())
     concrete = any(r["exit"] == 1 and not any("no-failing-input-found" in l for l in r["lines"]) for r in results.values())
-    meta.update({"check_results": results, "checks_ran_against": TARGET})
+    meta.update({"check_results": results, "checks_ran_against": TARGET, "check_results_recorded_at_repo_head": head()[:7]})
     if kind == "seeded":
         meta.update({"caught_by_target_check": any(r["exit"] == 1 for r in results.values()), "caught_with_concrete_input": concrete})
     else:
